@@ -361,8 +361,16 @@ pub fn c01(tier: &str) -> i32 {
     crate::absx::run_closure(
         &mut out,
         &mon,
-        &crate::absx::ClosureCfg { label: "C01: core actions + create/place", max_rest: if t { 4 } else { 3 }, max_vol: if t { 3 } else { 2 }, modify: false, toggles: false, create: true, redundant: false, ties: false, prices: 3, reload_depth: 0 },
+        &crate::absx::ClosureCfg { label: "C01: core actions + create/place", max_rest: if t { 4 } else { 3 }, max_vol: if t { 3 } else { 2 }, modify: false, toggles: false, create: true, redundant: false, ties: false, prices: 3, reload_depth: 0, suffix_k: 0 },
         t,
+    );
+    // re-pricing / re-sizing modifies among the actions, and the classes of the last two operations
+    // in the key (a book entered by a modification is expanded separately)
+    crate::absx::run_closure(
+        &mut out,
+        &mon,
+        &crate::absx::ClosureCfg { label: "C01: + modifies, last two operation classes in the key", max_rest: if t { 3 } else { 2 }, max_vol: 2, modify: true, toggles: false, create: true, redundant: false, ties: false, prices: 3, reload_depth: 0, suffix_k: 2 },
+        false,
     );
     out.assumptions = vec![
         "reference model (harness/src/refmodel.rs) is the definition of price-time priority".into(),
@@ -454,6 +462,15 @@ pub fn c02(tier: &str) -> i32 {
         &["op-with-trades", "state-crossed", "op:reload", "modify-requeue"],
         if t { 3000 } else { 50 },
     );
+    // unbounded depth: closure over abstract book states (the reference engine only supplies the
+    // state identity; the oracle stays the model-free recomputation from get_orders()), with
+    // snapshot reloads among the actions and the class of the last operation in the key
+    crate::absx::run_closure(
+        &mut out,
+        &mon,
+        &crate::absx::ClosureCfg { label: "C02: views recomputed in every reachable book state (modify, toggles, create/place, reload)", max_rest: if t { 3 } else { 2 }, max_vol: 2, modify: true, toggles: true, create: true, redundant: false, ties: false, prices: 3, reload_depth: 1, suffix_k: if t { 2 } else { 1 } },
+        false,
+    );
     out.assumptions = vec![
         "recomputation uses get_orders() only: an order is resting iff its status is Active".into(),
     ];
@@ -530,6 +547,13 @@ pub fn c03(tier: &str) -> i32 {
         &mon,
         &["op-with-trades", "modify-that-trades", "multi-fill-sweep", "op:reset-trade-vol", "modify-in-place-reduction"],
         if t { 3000 } else { 50 },
+    );
+    // unbounded depth: the ledger audit on every transition of the closure over abstract book states
+    crate::absx::run_closure(
+        &mut out,
+        &mon,
+        &crate::absx::ClosureCfg { label: "C03: ledger audit in every reachable book state (modify, toggles, create/place)", max_rest: if t { 3 } else { 2 }, max_vol: 2, modify: true, toggles: true, create: true, redundant: false, ties: false, prices: 3, reload_depth: 0, suffix_k: if t { 2 } else { 1 } },
+        false,
     );
     out.assumptions = vec!["the audit uses the log, get_orders() and the volumes the harness itself submitted".into()];
     out.finish()
@@ -629,7 +653,7 @@ pub fn c04(tier: &str) -> i32 {
     crate::absx::run_closure(
         &mut out,
         &mon,
-        &crate::absx::ClosureCfg { label: "C04: redundant requests on every dead class in every state", max_rest: if t { 3 } else { 2 }, max_vol: 2, modify: true, toggles: true, create: true, redundant: true, ties: false, prices: 3, reload_depth: 0 },
+        &crate::absx::ClosureCfg { label: "C04: redundant requests on every dead class in every state", max_rest: if t { 3 } else { 2 }, max_vol: 2, modify: true, toggles: true, create: true, redundant: true, ties: false, prices: 3, reload_depth: 0, suffix_k: 0 },
         t,
     );
     out.finish()
@@ -693,8 +717,14 @@ pub fn c06(tier: &str) -> i32 {
     crate::absx::run_closure(
         &mut out,
         &mon,
-        &crate::absx::ClosureCfg { label: "C06: every modify shape on every queue rank, trading flag in the key", max_rest: 3, max_vol: if t { 3 } else { 2 }, modify: true, toggles: true, create: false, redundant: false, ties: false, prices: 3, reload_depth: 0 },
+        &crate::absx::ClosureCfg { label: "C06: every modify shape on every queue rank, trading flag in the key", max_rest: 3, max_vol: if t { 3 } else { 2 }, modify: true, toggles: true, create: false, redundant: false, ties: false, prices: 3, reload_depth: 0, suffix_k: 0 },
         t,
+    );
+    crate::absx::run_closure(
+        &mut out,
+        &mon,
+        &crate::absx::ClosureCfg { label: "C06: every modify shape, last two operation classes in the key", max_rest: 2, max_vol: if t { 3 } else { 2 }, modify: true, toggles: true, create: false, redundant: false, ties: false, prices: 3, reload_depth: 0, suffix_k: 2 },
+        false,
     );
     out.assumptions = vec!["reference model encodes the statement: only (no price, smaller volume) keeps the seat".into()];
     out.finish()
@@ -824,8 +854,17 @@ pub fn c13(tier: &str) -> i32 {
     crate::absx::run_closure(
         &mut out,
         &mon,
-        &crate::absx::ClosureCfg { label: "C13: trading flag in the key (crossed books reachable)", max_rest: if t { 3 } else { 2 }, max_vol: 2, modify: true, toggles: true, create: false, redundant: false, ties: false, prices: 3, reload_depth: 0 },
+        &crate::absx::ClosureCfg { label: "C13: trading flag in the key (crossed books reachable)", max_rest: if t { 3 } else { 2 }, max_vol: 2, modify: true, toggles: true, create: false, redundant: false, ties: false, prices: 3, reload_depth: 0, suffix_k: 0 },
         t,
+    );
+    // the same closure with the classes of the last two (thorough: three) operations in the key:
+    // a book entered by a modification, a toggle, ... is expanded separately from the same live
+    // book entered otherwise (state carried from one operation to the next)
+    crate::absx::run_closure(
+        &mut out,
+        &mon,
+        &crate::absx::ClosureCfg { label: "C13: trading flag and the last operations' classes in the key", max_rest: 2, max_vol: 2, modify: true, toggles: true, create: false, redundant: false, ties: false, prices: 3, reload_depth: 0, suffix_k: if t { 3 } else { 2 } },
+        false,
     );
     crate::marketx::c13_market_part(&mut out, t);
     crate::envprops::c13_env_part(&mut out, t);
@@ -922,7 +961,7 @@ pub fn c05_book(out: &mut Outcome, t: bool) {
     crate::absx::run_closure(
         out,
         &mon2,
-        &crate::absx::ClosureCfg { label: "C05: tie closure (clock {0,+1}, modify, toggles)", max_rest: 3, max_vol: 2, modify: true, toggles: t, create: false, redundant: false, ties: true, prices: 2, reload_depth: 0 },
+        &crate::absx::ClosureCfg { label: "C05: tie closure (clock {0,+1}, modify, toggles)", max_rest: 3, max_vol: 2, modify: true, toggles: t, create: false, redundant: false, ties: true, prices: 2, reload_depth: 0, suffix_k: 0 },
         t,
     );
     // the same with snapshot reloads among the actions (C05 demands C07 on tie histories): the
@@ -931,14 +970,14 @@ pub fn c05_book(out: &mut Outcome, t: bool) {
     crate::absx::run_closure(
         out,
         &mon3,
-        &crate::absx::ClosureCfg { label: "C05: tie closure with snapshot reloads", max_rest: if t { 3 } else { 2 }, max_vol: 2, modify: true, toggles: false, create: false, redundant: false, ties: true, prices: 2, reload_depth: if t { 2 } else { 1 } },
+        &crate::absx::ClosureCfg { label: "C05: tie closure with snapshot reloads", max_rest: if t { 3 } else { 2 }, max_vol: 2, modify: true, toggles: false, create: false, redundant: false, ties: true, prices: 2, reload_depth: if t { 2 } else { 1 }, suffix_k: 0 },
         false,
     );
     if t {
         crate::absx::run_closure(
             out,
             &mon2,
-            &crate::absx::ClosureCfg { label: "C05: tie closure, three prices, create/place", max_rest: 2, max_vol: 2, modify: true, toggles: true, create: true, redundant: false, ties: true, prices: 3, reload_depth: 0 },
+            &crate::absx::ClosureCfg { label: "C05: tie closure, three prices, create/place", max_rest: 2, max_vol: 2, modify: true, toggles: true, create: true, redundant: false, ties: true, prices: 3, reload_depth: 0, suffix_k: 0 },
             false,
         );
     }
